@@ -425,7 +425,7 @@ def run_unit(name, tier="quick", keep=None, timeout=None):
         cmd = _kani_cmd(name, list(u["harnesses"]))
         res["cmd"] = ("cd <scratch copy of %s with kani/%s.rs appended to %s> && CARGO_NET_OFFLINE=true "
                       "CARGO_TARGET_DIR=<scratch>/target %s" % (common.REPO, name, u["file"], " ".join(cmd)))
-        rc, out, errtxt, secs = run(cmd, timeout=timeout or u.get("timeout", 600), mem_gb=16, cwd=d, env=env)
+        rc, out, errtxt, secs = run(cmd, timeout=timeout or u.get("timeout", 1500), mem_gb=16, cwd=d, env=env)
         res["solver_seconds"] = round(sum(float(x) for x in re.findall(r"Verification Time: ([0-9.]+)s", out)), 2)
         parsed = parse_output(out)
         _classify(res, u, name, parsed, rc, out, errtxt, start)
